@@ -44,7 +44,13 @@ pub fn gen_doc(r: &mut Rng) -> J {
             let ys: Vec<J> = (0..(33 + r.below(30)))
                 .map(|_| {
                     let v = r.range(0, 3);
-                    if r.chance(1, 2) { J::Int(v) } else { J::Float(v as f64) }
+                    if v == 0 && r.chance(1, 3) {
+                        J::Float(-0.0)
+                    } else if r.chance(1, 2) {
+                        J::Int(v)
+                    } else {
+                        J::Float(v as f64)
+                    }
                 })
                 .collect();
             m.push(("ys".to_string(), J::Arr(ys)));
@@ -122,6 +128,46 @@ fn gen_typed(r: &mut Rng) -> Typed {
         14 => Typed::Str((*r.pick(TSTRS)).to_string()),
         _ => Typed::String((*r.pick(TSTRS)).to_string()),
     }
+}
+
+/// A text that differs from `t` only slightly.
+fn text_variant(r: &mut Rng, t: &str) -> String {
+    let cs: Vec<char> = t.chars().collect();
+    if cs.is_empty() {
+        return " ".to_string();
+    }
+    let spaces: Vec<usize> = (0..cs.len()).filter(|&i| cs[i] == ' ').collect();
+    let mut out = cs.clone();
+    match r.below(7) {
+        0 | 1 if !spaces.is_empty() => {
+            // double a space (inside a raw string this is data, between tokens it is not)
+            let i = spaces[r.below(spaces.len())];
+            out.insert(i, ' ');
+        }
+        2 if !spaces.is_empty() => {
+            let i = spaces[r.below(spaces.len())];
+            out[i] = *r.pick(&['\t', '\n', '\u{a0}']);
+        }
+        3 => out.push(' '),
+        4 => out.insert(0, ' '),
+        5 => {
+            // flip the case of one letter
+            let letters: Vec<usize> = (0..cs.len()).filter(|&i| cs[i].is_ascii_alphabetic()).collect();
+            if let Some(&i) = letters.get(r.below(letters.len().max(1))) {
+                out[i] = if cs[i].is_ascii_lowercase() { cs[i].to_ascii_uppercase() } else { cs[i].to_ascii_lowercase() };
+            }
+        }
+        _ => {
+            // change one digit or append a character
+            let digits: Vec<usize> = (0..cs.len()).filter(|&i| cs[i].is_ascii_digit()).collect();
+            if let Some(&i) = digits.get(r.below(digits.len().max(1))) {
+                out[i] = if cs[i] == '9' { '1' } else { ((cs[i] as u8) + 1) as char };
+            } else {
+                out.push('_');
+            }
+        }
+    }
+    out.into_iter().collect()
 }
 
 /// Expressions that make sense on a scalar input.
@@ -334,6 +380,10 @@ pub fn gen_history(seed: u64) -> Vec<Op> {
                 // sometimes re-use a text already compiled (possibly under another runtime)
                 let text = match pick_filled(&mut r, &m.h, |x| x.is_some()) {
                     Some(i) if r.chance(1, 4) => m.h[i].as_ref().unwrap().1.clone(),
+                    // a near-duplicate of a text already compiled: anything that keys state by
+                    // a lossy digest of the text (case-folded, white space collapsed, truncated,
+                    // hashed weakly) now confuses the two
+                    Some(i) if r.chance(1, 5) => text_variant(&mut r, &m.h[i].as_ref().unwrap().1),
                     _ => {
                         if r.chance(sw.typed_pct, 100) {
                             scalar_expr(&mut r)
@@ -397,7 +447,13 @@ pub fn gen_history(seed: u64) -> Vec<Op> {
                     *jnew = Some(j);
                     DocSpec::Json(t)
                 };
-                let spec = match r.below(8) {
+                let nkinds = if r.chance(1, 6) { 9 } else { 8 };
+                let spec = match r.below(nkinds) {
+                    8 => DocSpec::Deep {
+                        // around serde_json's parser limit of 128, and well beyond
+                        depth: *r.pick(&[5, 100, 127, 128, 129, 130, 160, 250]),
+                        obj_every: *r.pick(&[0, 0, 2, 7]),
+                    },
                     0 | 1 => {
                         let filled: Vec<usize> = (0..D_SLOTS).filter(|&i| m.d[i] && i != d).collect();
                         if filled.is_empty() {
@@ -437,9 +493,43 @@ pub fn gen_history(seed: u64) -> Vec<Op> {
                     DocSpec::Sub { of, .. } => m.fb_depth[*of],
                     _ => 0,
                 };
+                let aliased = matches!(spec, DocSpec::Compose { .. } | DocSpec::Sub { .. });
                 ops.push(Op::NewDoc { d, spec });
                 m.d[d] = true;
                 m.dj[d] = jnew;
+                if aliased && r.chance(1, 2) {
+                    // the new document holds the same node more than once (and shares it with
+                    // another live document): probe with expressions that put two aliases of
+                    // one value side by side
+                    let h = r.below(H_SLOTS);
+                    let text = (*r.pick(&[
+                        "[0] == [1]", "[0] < [1]", "[0] <= [1]", "[0] > [1]", "[0] != [1]", "a == b", "a < b", "a >= b",
+                        "[[0], [1]] | [0] < [1]", "[?@ == `1`]", "[0] | [1]", "[*][0]", "*", "[a, b] | [0] > [1]",
+                        "[0][0] < [1][0]", "a.k <= b.k", "[0].a >= [1].a", "sort_by(@, &k)", "[0] && [1]", "contains(@, [0])",
+                        "max_by(@, &id)", "[].id", "merge(a, b)", "values(@)[0] < values(@)[1]",
+                    ]))
+                    .to_string();
+                    ops.push(Op::Compile {
+                        h,
+                        rt: 0,
+                        text: text.clone(),
+                    });
+                    m.h[h] = Some((0, text));
+                    let id = m.next_id;
+                    m.next_id += 1;
+                    let input = Input::Doc {
+                        slot: d,
+                        form: *r.pick(&[Form::Rcvar, Form::RefRcvar, Form::Rcvar, Form::RefVar]),
+                    };
+                    ops.push(Op::Search {
+                        id,
+                        h,
+                        input: input.clone(),
+                        plan: Plan::default(),
+                    });
+                    m.recent.push(id);
+                    m.past.push((h, input, Plan::default()));
+                }
             }
             6 => {
                 if let Some(d) = pick_filled(&mut r, &m.d, |b| *b) {
